@@ -1,6 +1,7 @@
 package main
 
 import (
+	"go/token"
 	"strings"
 
 	"golang.org/x/tools/go/ssa"
@@ -184,7 +185,7 @@ func helperEdgeSelected(e Edge, cond ssa.Value, truth bool, pred EdgePred, depth
 	wantNilErr := false // the edge says "the helper's error result is nil"
 	resIdx := 0
 	boolRes := false
-	if c := callValue(cond); c != nil {
+	if c, isCall := stripNoSubst(cond).(*ssa.Call); isCall {
 		cl, boolRes = c, true
 	} else if v, isNil, ok := nilCmp(cond, truth); ok {
 		switch x := stripNoSubst(v).(type) {
@@ -245,9 +246,20 @@ func helperEdgeSelected(e Edge, cond ssa.Value, truth bool, pred EdgePred, depth
 				if b != truth {
 					continue
 				}
-			} else if pred(e, rv, truth) || phiTruthGuarded(e, rv, truth, pred, depth) {
-				n++
-				continue
+			} else {
+				// `return !x`: the helper yields truth exactly when x is !truth
+				pv, pt := rv, truth
+				for {
+					u, isU := stripNoSubst(pv).(*ssa.UnOp)
+					if !isU || u.Op != token.NOT {
+						break
+					}
+					pv, pt = u.X, !pt
+				}
+				if pred(e, pv, pt) || phiTruthGuarded(e, pv, pt, pred, depth) {
+					n++
+					continue
+				}
 			}
 		} else { // error result must be nil
 			if !isNilConst(stripNoSubst(rv)) {
